@@ -3,7 +3,7 @@
    computed by breadth-first closure inside the kernel (vm_compute), proved closed under every step (so it
    is an inductive invariant) and exact (every member is reachable); the properties are then decided on
    every member.  No sampling. *)
-From Coq Require Import List Bool.
+From Coq Require Import List Bool Arith PeanoNat.
 From Gatery Require Import FiberDefs.
 Import ListNotations.
 
@@ -213,4 +213,74 @@ Lemma turn_flag_proof :
     (fiber_user s = true -> running s = true) /\ (main_user s = true -> running s = false).
 Proof.
   intros s Hr Ht. destruct (handoff_mutex_proof s Hr) as (_ & H2 & H3 & _). split; auto.
+Qed.
+
+Lemma handoff_fiber_parked_proof :
+  (forall s, reachable s -> main_user s = true -> fiber_in_wait s = true \/ pf s = FLoop \/ pf s = FCheckTerm) /\
+  (exists s, reachable s /\ main_user s = true /\ pf s = FCheckTerm).
+Proof. exact (conj fiber_active_while_main_user_proof spurious_state_reachable). Qed.
+
+(* ------------------------------------------------------------------------- *)
+(** * Several fibers *)
+
+Definition busy_ok (s : fstate) : bool := implb (fiber_user s) (negb (resting (pm s))).
+Lemma fiber_user_busy_all : forallb (fun s => implb (inv s) (busy_ok s)) all_states = true.
+Proof. vm_compute. reflexivity. Qed.
+Lemma fiber_user_busy : forall s, reachable s -> fiber_user s = true -> resting (pm s) = false.
+Proof.
+  intros s R F. pose proof (reachable_inv s R) as Hi.
+  pose proof (proj1 (forallb_forall _ _) fiber_user_busy_all s (all_states_complete s)) as H.
+  simpl in H. rewrite Hi in H. simpl in H. unfold busy_ok in H. rewrite F in H. simpl in H.
+  apply negb_true_iff in H. exact H.
+Qed.
+
+Lemma nth_upd_same : forall l j x s, nth_error l j = Some s -> nth_error (upd_nth j x l) j = Some x.
+Proof. induction l as [|y r IH]; intros [|j] x s H; simpl in *; try discriminate; [reflexivity | eapply IH; exact H]. Qed.
+Lemma nth_upd_other : forall l j i x, i <> j -> nth_error (upd_nth j x l) i = nth_error l i.
+Proof.
+  induction l as [|y r IH]; intros [|j] [|i] x H; simpl; try reflexivity; try congruence.
+  apply IH. congruence.
+Qed.
+
+(* every component is a reachable state of the one-fiber system, and the simulator is in at most one call *)
+Lemma mreachable_inv : forall n ss, mreachable n ss ->
+  (forall j s, nth_error ss j = Some s -> reachable s) /\
+  (forall i j s t, i <> j -> nth_error ss i = Some s -> nth_error ss j = Some t ->
+     resting (pm s) = true \/ resting (pm t) = true).
+Proof.
+  induction 1 as [|ss ss' _ (IH1 & IH2) (j & s & s' & Hj & Hs & -> & Hent)].
+  - split.
+    + intros j s H. apply nth_error_In in H. apply repeat_spec in H. subst. exact reach_init.
+    + intros i j s t _ H _. apply nth_error_In in H. apply repeat_spec in H. subst. left. reflexivity.
+  - split.
+    + intros i t H. destruct (Nat.eq_dec i j) as [->|Ne].
+      * rewrite (nth_upd_same _ _ _ _ Hj) in H. inversion H; subst. eapply reach_step; [exact (IH1 _ _ Hj) | exact Hs].
+      * rewrite nth_upd_other in H by exact Ne. exact (IH1 _ _ H).
+    + assert (Key : forall i t, i <> j -> nth_error ss i = Some t -> resting (pm t) = true \/ resting (pm s') = true).
+      { intros i t Ne Hi. destruct (resting (pm s')) eqn:R'; [right; reflexivity|]. left.
+        destruct (resting (pm s)) eqn:R.
+        - exact (Hent eq_refl eq_refl i t Ne Hi).
+        - destruct (IH2 i j t s Ne Hi Hj) as [X|X]; [exact X | congruence]. }
+      intros a b u v Nab Ha Hb.
+      destruct (Nat.eq_dec a j) as [->|Na]; destruct (Nat.eq_dec b j) as [->|Nb]; try congruence.
+      * rewrite (nth_upd_same _ _ _ _ Hj) in Ha. inversion Ha; subst. rewrite nth_upd_other in Hb by congruence.
+        destruct (Key b v ltac:(congruence) Hb); [right | left]; assumption.
+      * rewrite (nth_upd_same _ _ _ _ Hj) in Hb. inversion Hb; subst. rewrite nth_upd_other in Ha by congruence.
+        exact (Key a u Na Ha).
+      * rewrite nth_upd_other in Ha, Hb by assumption. exact (IH2 a b u v Nab Ha Hb).
+Qed.
+
+(* no two fiber bodies run at the same time, and none runs while the simulator proper runs *)
+Lemma multi_fiber_mutex_proof : forall n ss, mreachable n ss ->
+  (forall i j s t, i <> j -> nth_error ss i = Some s -> nth_error ss j = Some t ->
+     fiber_user s = true -> fiber_user t = true -> False) /\
+  (sim_user ss -> forall s, In s ss -> fiber_user s = false).
+Proof.
+  intros n ss R. destruct (mreachable_inv n ss R) as (I1 & I2). split.
+  - intros i j s t Ne Hi Hj Fs Ft.
+    pose proof (fiber_user_busy s (I1 _ _ Hi) Fs). pose proof (fiber_user_busy t (I1 _ _ Hj) Ft).
+    destruct (I2 i j s t Ne Hi Hj); congruence.
+  - intros U s Hs. destruct (fiber_user s) eqn:F; [|reflexivity]. exfalso.
+    destruct (In_nth_error _ _ Hs) as (j & Hj).
+    pose proof (fiber_user_busy s (I1 _ _ Hj) F). pose proof (U s Hs). congruence.
 Qed.
